@@ -458,12 +458,30 @@ func runC11(p *Program, r *Report) {
 				continue
 			}
 			cf := factsOf(ws)
-			// rows owned: first loop starts at + workerNum and steps by workerCount
-			own := len(cf.Loops) == 2 && cf.Loops[0].Step.Equal(formAtom("workerCount")) && strings.Contains(cf.Loops[0].First.Key(), "workerNum")
-			why := "the row loop is not striped by (workerNum, workerCount)"
+			if ws.CaseIdx > 0 {
+				key = fmt.Sprintf("%s case %d", key, ws.CaseIdx+1)
+			}
+			// rows owned: the row loops of all cases of this worker form disjoint
+			// sets for different workers (residue classes or consecutive bands)
+			own := len(cf.Loops) == 2
+			why := "the worker is not a row loop over a column loop"
 			rowK := ""
 			if own {
 				rowK = cf.Loops[0].K
+				var cases []rowCase
+				for _, sb := range sites {
+					if sb.Group == ws.Group && sb.Err == "" {
+						if c := factsOf(sb); len(c.Loops) == 2 {
+							cases = append(cases, rowCase{F: c.Loops[0].First, E: c.Loops[0].Limit, Step: c.Loops[0].Step, Conds: sb.CaseConds})
+						}
+					}
+				}
+				// the interval that is partitioned: from worker 0's first row to the last worker's end;
+				// disjointness does not depend on which rectangle it is
+				minY, maxY := rowInterval(ws.E, cases)
+				if ok, _, w := ws.E.rowsPartition(cases, minY, maxY); !ok {
+					own, why = false, "the rows of different workers are not provably disjoint: "+w
+				}
 			}
 			// every write (Pix store, Set*) addresses the worker's own row
 			for _, sv := range cf.Stores {
@@ -516,4 +534,52 @@ func runC11(p *Program, r *Report) {
 	r.Floor("C11.O4", 7)
 	_ = nLazy
 	_ = nWorkers
+}
+
+// rowInterval recovers [minY, maxY) from the row loops: for stripes the start
+// minus workerNum and the common limit; for bands worker 0's start and the
+// last worker's end are not needed separately — the rectangle bounds the loops
+// mention are taken from the striped form or, failing that, from the atoms
+// *.Min.Y / *.Max.Y occurring in the bounds.
+func rowInterval(e *Engine, cases []rowCase) (*Form, *Form) {
+	w := formAtom("workerNum")
+	for _, c := range cases {
+		if c.Step.Equal(formAtom("workerCount")) {
+			return c.F.Sub(w), c.E
+		}
+	}
+	var minY, maxY *Form
+	for _, c := range cases {
+		for _, f := range []*Form{c.F, c.E} {
+			var walk func(g *Form, d int)
+			walk = func(g *Form, d int) {
+				if g == nil || d > 4 {
+					return
+				}
+				for a := range g.Atoms() {
+					if strings.Contains(a, "Min.Y") || strings.Contains(a, ".Y(.Min(") {
+						minY = formAtom(a)
+					}
+					if strings.Contains(a, "Max.Y") || strings.Contains(a, ".Y(.Max(") {
+						maxY = formAtom(a)
+					}
+					if at := e.A.get(a); at != nil && at.Kind == "app" {
+						for _, arg := range at.Args {
+							if af, ok := arg.(*Form); ok {
+								walk(af, d+1)
+							}
+						}
+					}
+				}
+			}
+			walk(f, 0)
+		}
+	}
+	if minY == nil {
+		minY = formInt(0)
+	}
+	if maxY == nil {
+		maxY = formInt(0)
+	}
+	return minY, maxY
 }
